@@ -18,6 +18,7 @@ package gomatrixserverlib
 import (
 	"encoding/json"
 	"fmt"
+	"github.com/tidwall/gjson"
 	"strings"
 	"unicode/utf8"
 
@@ -113,6 +114,43 @@ func checkUntrustedEventShape(eventJSON []byte) error {
 		return fmt.Errorf("gomatrixserverlib: malformed event content or signatures: %w", err)
 	}
 	return nil
+}
+
+// checkNoDuplicateKeys refuses event JSON in which an object has two members
+// of the same name. The parts of the library that look at an event read such
+// members differently (gjson and sjson use the first, encoding/json the last),
+// so a second "hashes" member could vouch for rewritten content while the
+// first one kept the event ID and the signatures of the original, and a second
+// "join_authorised_via_users_server" could name another authorising server to
+// the auth rules than to the signature check.
+func checkNoDuplicateKeys(eventJSON []byte) error {
+	if key, found := findDuplicateKey(gjson.ParseBytes(eventJSON)); found {
+		return fmt.Errorf("gomatrixserverlib: object member %q appears more than once", key)
+	}
+	return nil
+}
+
+func findDuplicateKey(value gjson.Result) (key string, found bool) {
+	if !value.IsObject() && !value.IsArray() {
+		return "", false
+	}
+	var seen map[string]struct{}
+	if value.IsObject() {
+		seen = map[string]struct{}{}
+	}
+	value.ForEach(func(k, v gjson.Result) bool {
+		if seen != nil {
+			name := k.String()
+			if _, ok := seen[name]; ok {
+				key, found = name, true
+				return false
+			}
+			seen[name] = struct{}{}
+		}
+		key, found = findDuplicateKey(v)
+		return !found
+	})
+	return key, found
 }
 
 func SplitID(sigil byte, id string) (local string, domain spec.ServerName, err error) {
